@@ -819,6 +819,16 @@ impl<'a, 'ast> Visit<'ast> for Collector<'a> {
         }
     }
     fn visit_expr_call(&mut self, c: &'ast syn::ExprCall) {
+        // R11: building a serde error (`SerdeError::custom(..)`, `serde::de::Error::custom(..)`) is replaced by `()`: the extracted
+        // deserializers return Result<_, ()>; the message text (format!) is dropped with it
+        if let syn::Expr::Path(p) = &*c.func {
+            let t = nows(&self.src[range(p.span()).0..range(p.span()).1]);
+            if t == "SerdeError::custom" || t == "serde::de::Error::custom" || t == "de::Error::custom" {
+                let (s, e) = range(c.span());
+                self.push(s, e, "()".into(), "R11");
+                return;
+            }
+        }
         if self.into_action {
             if let syn::Expr::Path(p) = &*c.func {
                 let t = nows(&self.src[range(p.span()).0..range(p.span()).1]);
